@@ -34,6 +34,11 @@ CHECKS = {
   text="Model checking of the exact action semantics with TLC (one state per (object, A, B); group-action laws and derived-data compatibility as invariants), bound to the code by replaying every case through the library's `@`, `inv()` and constructors on unit objects and composite stacks and comparing type, composite shape, primary and derived data (polygon edges, segment ideal endpoints, tangent directions) projectively with the spec's exact image; representation words act as the exact product matrix.",
   note="Universe: ~40 hyperbolic objects x 9 isometries squared in dimension 2 (3 in thorough), 14 projective objects x 6 matrices squared, 5 CP^1 points x 4 Gaussian matrices squared; hyperplane ideal bases compared through normal/nullity/orthogonality/rank (frame dependent); arbitrary real matrices only at these exact values.",
   design="4/C03"),
+ "C12": dict(
+  technique="TLA+ specs Packaging.tla (finite case analysis entry point x packaging x value: the rule is the specification, TLC enumerates it) and Rescale.tla (rescaling as a stuttering step of the projective state; TLC checks scale invariance of the canonical forms Prim / tangent class / cosh^2 and emits (object, scale vector, isometry) cases with exact observations); every case executed on the library",
+  text="Model checking of two small explicit specifications with TLC: the packaging rule (domain, never-object, equality with the canonical packaging, follow-up routines succeed) over 314 cases, and the rescaling machine over ~950 (object, scale pattern, isometry) states; bound to the code by executing every packaging case on 26 entry points and by rebuilding every object from rescaled representatives (negative and fractional factors, unit by unit) and re-running constructor, image-under-isometry, coordinates, distance, tangent direction / point_along / unit_tangent_towards, origin_to as a projective map, circle and horosphere parameters against the unchanged spec state.",
+  note="Only the installed NumPy 2.x; factors {-3,-1,-1/2,1/3,2,1} in 12 patterns; dimension 2 objects of HypAction.tla; circle/horosphere parameters compared metamorphically with the unscaled library output; geodesics through the half-space point at infinity excluded; integer-typed results accepted when numerically equal to the canonical result.",
+  design="4/C12"),
 }
 
 NOT_YET = {
